@@ -198,8 +198,9 @@ def knownUnguarded : List String := [
 
     Locations are named by type and field.  An access through an object that several goroutines can reach is
     `guarded` (a lock every conflicting pair shares, or an operation of a synchronisation object) or `unguarded`.
-    The unguarded ones are accepted only at the locations below, and a WRITE only in the pinned functions: a new
-    callee that writes shared state without a lock breaks `callee_facts_ok` / `facts_ok_except_known`. -/
+    The unguarded ones are accepted only at the locations below, and only the pinned accesses (`pinnedUnguarded`:
+    location, function, read / write, locks held): a new callee that writes shared state without a lock, or a pinned
+    writer that loses its lock, breaks `callee_facts_ok`. -/
 
 /-- KNOWN FINDING F105 (recorded, not repaired): the flags of the transaction (`SET @@…`, `ADD … TO @@…`, `REMOVE`,
     `RELOAD CONFIG`, `SET @@WAIT_TIMEOUT` → `Transaction.UpdateWaitTimeout`, the colour palette) are written under
@@ -239,22 +240,97 @@ def reviewedLocations : List String := [
 def openLocations : List String := [
   "FileInfo.Delimiter", "FileInfo.DelimiterPositions", "FileInfo.EncloseAll", "FileInfo.Encoding", "FileInfo.Format",
   "FileInfo.JsonEscape", "FileInfo.LineBreak", "FileInfo.NoHeader", "FileInfo.Path", "FileInfo.PrettyPrint",
-  "FileInfo.SingleLine", "FileInfo.restorePointHeader", "FileInfo.restorePointRecordSet", "Transaction.UrlCache",
+  "FileInfo.SingleLine", "FileInfo.positionsDetected", "FileInfo.restorePointHeader", "FileInfo.restorePointRecordSet", "Transaction.UrlCache",
   "Transaction.stdinIsLocked", "file.Container.m"]
 
-/-- the functions that write one of these locations without a lock shared with every other access (pinned) -/
-def pinnedUnguardedWriters : List String := [
-  "BaseError.appendCompositeError", "CreateTable", "FileInfo.SetDelimiter", "FileInfo.SetDelimiterPositions",
-  "FileInfo.SetEncloseAll", "FileInfo.SetEncoding", "FileInfo.SetFormat", "FileInfo.SetJsonEscape",
-  "FileInfo.SetLineBreak", "FileInfo.SetNoHeader", "FileInfo.SetPrettyPrint", "LoadContentsFromFile",
-  "Processor.ExecuteStatement", "Rand", "Reload", "RemoveFlagElement", "Transaction.ClearUrlCache",
-  "Transaction.Commit", "Transaction.LockStdinContext", "Transaction.ReleaseResources", "Transaction.UnlockStdin",
-  "View.CreateRestorePoint", "View.evalColumn", "ViewMap.Dispose", "cacheViewFromFile", "encodeJson",
-  "loadHttpObject", "loadInlineObjectFromFile", "loadView", "option.Flags.SetCPU", "option.Flags.SetDatetimeFormat"]
+/-- WHAT is known at these locations (pinned): every unguarded WRITE, and every unguarded read that holds some lock, as
+    (location, element?, function, is a write, locks held).  A known finding is a set of such accesses — e.g. F110 at
+    `Transaction.UrlCache`: `loadHttpObject` reads and writes the map UNDER `viewLoadingMutex`, `ClearUrlCache` under
+    `operationMutex` (the finding is that the two locks differ).  A writer that loses its lock, a new writer, a reader
+    that gives up the lock it held are other accesses: they break `callee_facts_ok` and are reported with their site.
+    Reads that hold no lock at all are accepted at the known locations (every further unlocked reader of the flags is
+    the same finding F105). -/
+def pinnedUnguarded : List (String × Bool × String × Bool × String) := [
+  ("BaseError.compositeErrs", false, "BaseError.appendCompositeError", true, ""),
+  ("FileInfo.Delimiter", false, "FileInfo.SetDelimiter", true, ""),
+  ("FileInfo.Delimiter", false, "FileInfo.SetFormat", true, ""),
+  ("FileInfo.DelimiterPositions", false, "FileInfo.SetDelimiterPositions", true, ""),
+  ("FileInfo.EncloseAll", false, "FileInfo.SetEncloseAll", true, ""),
+  ("FileInfo.Encoding", false, "FileInfo.SetEncoding", true, ""),
+  ("FileInfo.Encoding", false, "FileInfo.SetFormat", true, ""),
+  ("FileInfo.Format", false, "FileInfo.SetDelimiter", true, ""),
+  ("FileInfo.Format", false, "FileInfo.SetDelimiterPositions", true, ""),
+  ("FileInfo.Format", false, "FileInfo.SetFormat", true, ""),
+  ("FileInfo.JsonEscape", false, "FileInfo.SetFormat", true, ""),
+  ("FileInfo.JsonEscape", false, "FileInfo.SetJsonEscape", true, ""),
+  ("FileInfo.LineBreak", false, "FileInfo.SetLineBreak", true, ""),
+  ("FileInfo.NoHeader", false, "FileInfo.SetNoHeader", true, ""),
+  ("FileInfo.Path", false, "loadView", true, ""),
+  ("FileInfo.PrettyPrint", false, "FileInfo.SetPrettyPrint", true, ""),
+  ("FileInfo.SingleLine", false, "FileInfo.SetDelimiterPositions", true, ""),
+  ("FileInfo.positionsDetected", false, "FileInfo.SetDelimiterPositions", true, ""),
+  ("FileInfo.restorePointHeader", false, "View.CreateRestorePoint", true, ""),
+  ("FileInfo.restorePointRecordSet", false, "View.CreateRestorePoint", true, ""),
+  ("HeaderField.Aliases", false, "View.evalColumn", true, ""),
+  ("Transaction.AffectedRows", false, "Processor.ExecuteStatement", true, ""),
+  ("Transaction.RetryDelay", false, "Reload", false, "Transaction.operationMutex"),
+  ("Transaction.RetryDelay", false, "cacheViewFromFile", false, "Transaction.viewLoadingMutex"),
+  ("Transaction.RetryDelay", false, "loadInlineObjectFromFile", false, "Transaction.viewLoadingMutex"),
+  ("Transaction.UrlCache", true, "Transaction.ClearUrlCache", false, "Transaction.operationMutex"),
+  ("Transaction.UrlCache", true, "Transaction.ClearUrlCache", true, "Transaction.operationMutex"),
+  ("Transaction.UrlCache", true, "loadHttpObject", false, "Transaction.viewLoadingMutex"),
+  ("Transaction.UrlCache", true, "loadHttpObject", true, "Transaction.viewLoadingMutex"),
+  ("Transaction.WaitTimeout", false, "Reload", false, "Transaction.operationMutex"),
+  ("Transaction.WaitTimeout", false, "Transaction.LockStdinContext", false, "Transaction.viewLoadingMutex"),
+  ("Transaction.WaitTimeout", false, "Transaction.RLockStdinContext", false, "Transaction.viewLoadingMutex"),
+  ("Transaction.WaitTimeout", false, "cacheViewFromFile", false, "Transaction.viewLoadingMutex"),
+  ("Transaction.WaitTimeout", false, "loadInlineObjectFromFile", false, "Transaction.viewLoadingMutex"),
+  ("Transaction.stdinIsLocked", false, "Transaction.LockStdinContext", true, "Transaction.viewLoadingMutex"),
+  ("Transaction.stdinIsLocked", false, "Transaction.UnlockStdin", false, "Transaction.operationMutex"),
+  ("Transaction.stdinIsLocked", false, "Transaction.UnlockStdin", true, "Transaction.operationMutex"),
+  ("Transaction.stdinIsLocked", false, "loadObjectFromStdin", false, "Transaction.viewLoadingMutex"),
+  ("color.Palette.useEffects", false, "encodeJson", true, ""),
+  ("file.Container.m", false, "CreateTable", true, ""),
+  ("file.Container.m", false, "LoadContentsFromFile", true, ""),
+  ("file.Container.m", false, "Transaction.Commit", false, "Transaction.operationMutex"),
+  ("file.Container.m", false, "Transaction.Commit", true, "Transaction.operationMutex"),
+  ("file.Container.m", false, "Transaction.ReleaseResources", false, "Transaction.operationMutex"),
+  ("file.Container.m", false, "Transaction.ReleaseResources", true, "Transaction.operationMutex"),
+  ("file.Container.m", false, "ViewMap.Dispose", true, ""),
+  ("file.Container.m", false, "cacheViewFromFile", false, "Transaction.viewLoadingMutex"),
+  ("file.Container.m", false, "cacheViewFromFile", true, "Transaction.viewLoadingMutex"),
+  ("file.Container.m", false, "loadInlineObjectFromFile", false, "Transaction.viewLoadingMutex"),
+  ("file.Container.m", false, "loadInlineObjectFromFile", true, "Transaction.viewLoadingMutex"),
+  ("option.ExportOptions.LineBreak", false, "Processor.ExecuteStatement", false, "Session.mtx"),
+  ("option.ExportOptions.StripEndingLineBreak", false, "Processor.ExecuteStatement", false, "Session.mtx"),
+  ("option.ExportOptions.StripEndingLineBreak", false, "Transaction.Commit", false, "Transaction.operationMutex"),
+  ("option.Flags.CPU", false, "option.Flags.SetCPU", true, ""),
+  ("option.Flags.DatetimeFormat", false, "Reload", false, "Transaction.operationMutex"),
+  ("option.Flags.DatetimeFormat", false, "Reload", true, "Transaction.operationMutex"),
+  ("option.Flags.DatetimeFormat", false, "RemoveFlagElement", false, "Transaction.operationMutex"),
+  ("option.Flags.DatetimeFormat", false, "RemoveFlagElement", true, "Transaction.operationMutex"),
+  ("option.Flags.DatetimeFormat", false, "Transaction.GetFlag", false, "Transaction.flagMutex (read)"),
+  ("option.Flags.DatetimeFormat", false, "option.Flags.SetDatetimeFormat", false, "Transaction.flagMutex"),
+  ("option.Flags.DatetimeFormat", false, "option.Flags.SetDatetimeFormat", true, "Transaction.flagMutex"),
+  ("option.Flags.Quiet", false, "Processor.ExecuteStatement", false, "Transaction.operationMutex"),
+  ("option.Flags.Quiet", false, "Transaction.Commit", false, "Transaction.operationMutex"),
+  ("option.Flags.Quiet", false, "Transaction.Rollback", false, "Transaction.operationMutex"),
+  ("option.Flags.Quiet", false, "Transaction.quietForTemporaryViews", false, "Transaction.operationMutex"),
+  ("option.Flags.Repository", false, "cacheViewFromFile", false, "Transaction.viewLoadingMutex"),
+  ("option.Flags.Repository", false, "loadInlineObjectFromFile", false, "Transaction.viewLoadingMutex"),
+  ("option.Flags.Stats", false, "Processor.ExecuteStatement", false, "Transaction.operationMutex"),
+  ("option.ImportOptions.Format", false, "cacheViewFromFile", false, "Transaction.viewLoadingMutex"),
+  ("option.ImportOptions.Format", false, "loadInlineObjectFromFile", false, "Transaction.viewLoadingMutex"),
+  ("rand.Rand.s64", false, "Rand", true, ""),
+  ("rand.Rand.src", false, "Rand", true, "")]
 
-def calleeAccepted (f : ParFact) : Bool :=
-  (f105Locations.contains f.var || f79Locations.contains f.var || reviewedLocations.contains f.var || openLocations.contains f.var) &&
-  (f.rw == .r || pinnedUnguardedWriters.contains f.fn)
+def knownLocation (v : String) : Bool :=
+  f105Locations.contains v || f79Locations.contains v || reviewedLocations.contains v || openLocations.contains v
+
+def unguardedKey (f : ParFact) : String × Bool × String × Bool × String := (f.var, f.elem, f.fn, f.rw == .w, f.how)
+
+/-- location-level acceptance (the exact accesses are pinned by `callee_facts_ok`) -/
+def calleeAccepted (f : ParFact) : Bool := knownLocation f.var
 
 /- The full statement, false on the current tree because of F79 only:
 
@@ -413,10 +489,12 @@ set_option maxRecDepth 1000000 in
     that a worker body reaches (call graph resolved with go/types: static calls, methods, interface methods by the
     implementing types, function values by signature) is guarded — a lock held by both sides of every conflicting
     pair, in the function itself, at every call site of it, or handed on by a function that returns holding it; or
-    an operation of a synchronisation object — except at the known / reviewed / open locations above, and a write
-    there only in the pinned functions. -/
+    an operation of a synchronisation object — except at the known / reviewed / open locations above, and there exactly
+    the pinned accesses (every unguarded write and every unguarded read under some lock, with the locks held). -/
 theorem callee_facts_ok :
-    calleeFacts.all (fun f => decide (f.cls ≠ .unguarded) || calleeAccepted f) = true := by decide +kernel
+    calleeFacts.all (fun f => decide (f.cls ≠ .unguarded) || knownLocation f.var) = true ∧
+    ((calleeFacts.filter (fun f => f.cls == .unguarded && (f.rw == .w || f.how != ""))).map unguardedKey == pinnedUnguarded) = true := by
+  decide +kernel
 
 set_option maxRecDepth 1000000 in
 /-- what the repaired findings look like now (non-vacuity of the region and confirmation of the repairs): the
